@@ -165,6 +165,25 @@ inline void put_head_min(std::string& o, uint8_t major, uint64_t v) {
   put_head(o, major, v, ai);
 }
 
+// well-formed nesting chain of `depth` levels around the integer 5, written directly as bytes (no tree, no recursion):
+// definite / indefinite arrays, definite / indefinite maps (key 0), tags, or a mixture
+inline std::string deep_chain(vf::Chooser& c, size_t depth) {
+  std::string o, tail;
+  uint64_t style = c.range(0, 5);
+  for (size_t i = 0; i < depth; i++) {
+    uint64_t s = style == 5 ? (i * 7 + depth) % 5 : style;
+    switch (s) {
+      case 0: o.push_back((char)0x81); break;
+      case 1: o.push_back((char)0x9F); tail.push_back((char)0xFF); break;
+      case 2: o.push_back((char)0xA1); o.push_back((char)0x00); break;
+      case 3: o.push_back((char)0xBF); o.push_back((char)0x00); tail.push_back((char)0xFF); break;
+      default: o.push_back((char)0xC1); break;
+    }
+  }
+  o.push_back((char)0x05);
+  return o + tail;
+}
+
 // preferred (shortest, definite) encoding
 inline void encode(const Node& n, std::string& o) {
   switch (n.major) {
